@@ -542,7 +542,7 @@ struct C13 : Driver {
     if (tier == 0 && level == 9 && W == 8) W = 4;
     c.p["W"] = W; c.p["mode"] = mode; c.p["level"] = level;
     c.p["dataseed"] = (int64_t)(rng.next() >> 1);
-    c.p["shape"] = (int64_t)rng.below(4);
+    c.p["shape"] = (int64_t)rng.below(5);      // (decompression) 4: legacy randomised blocks of more than 720000 symbols, a decoder path nothing else here enters (seeded change C13-4)
     sim::Sched s = random_sched(rng, false);
     if (rng.below(3)) { s.policy = sim::P_STARVE; static const uint32_t m[] = {1u << sim::FC_SINK, 1u << sim::FC_SINK, (1u << sim::FC_SINK) | (1u << sim::FC_WORKER), 1u << sim::FC_SOURCE, 128}; s.param = m[rng.below(5)]; }
     for (int k = 0; k < 4; k++) {
@@ -567,6 +567,11 @@ struct C13 : Driver {
       if (shape == 1) return gen::periodic(rng, n);
       if (shape == 2) return gen::random_bytes(rng, n, 4);
       return gen::random_bytes(rng, n, 256);       // incompressible: output blocks as large as the input chunks
+    }
+    if (shape == 4) {      // n, 2n, 4n, 8n copies of one stream holding a randomised block of 720001-900000 symbols
+      Bytes one = bz::gen_full_block(rng, 720001 + rng.below(179999), 9, rng.below(2), true).bytes, z;
+      for (size_t i = 0; i < 2 * mult; i++) z += one;
+      return z;
     }
     // decompression: streams that expand enormously
     size_t plain_n = (size_t)6000000 * mult;    // 6, 12, 24, 48 MB
